@@ -209,8 +209,12 @@ public:
 
 		// can't std::forward<Args>(args) in GetEvent::getEvent because the pass by value arguments will be moved to getEvent
 		// then the other std::forward<Args>(args) to directDispatch will get empty values.
+		// The event must be computed before the arguments are forwarded. If both are done in the same
+		// function call expression, the order of evaluation is unspecified, and a by value argument
+		// (such as a std::string event) may be moved away before getEvent reads it.
+		const auto e = GetEvent::getEvent(args...);
 		directDispatch(
-			GetEvent::getEvent(args...),
+			e,
 			std::forward<Args>(args)...
 		);
 	}
@@ -222,8 +226,10 @@ public:
 
 		using GetEvent = typename SelectGetEvent<Policies_, EventType_, HasFunctionGetEvent<Policies_, T &&, Args...>::value>::Type;
 
+		// See the comment in the other dispatch overload for why the event is computed first.
+		const auto e = GetEvent::getEvent(std::forward<T>(first), args...);
 		directDispatch(
-			GetEvent::getEvent(std::forward<T>(first), args...),
+			e,
 			std::forward<Args>(args)...
 		);
 	}
